@@ -209,6 +209,18 @@ CHECKS = {
         "Out-of-range mutant frames are compared for acceptance only (their sample values are not defined by the format).",
         "DESIGN.md section 4 C17",
     ),
+    "C13": (
+        "exhaustive fault enumeration: every underlying write/seek/flush/read call index fails once, permanently or with Interrupted; short-write runs",
+        "fault_enumeration",
+        "For each scenario (encode + finalize through every writer front-end with/without seek table and declared/undeclared total, "
+        "FlacStreamWriter, write_blocks over generated block lists, update_file in place and rebuilt incl. read faults on the "
+        "original) a fault-free run counts the underlying operations, then every index fails in three ways and all writes are "
+        "limited to 1/2/7 bytes: no unwind; either an error is reported or the bytes held by the underlying writer equal the "
+        "fault-free result exactly. Every read-call index of every reader front-end, verify_reader, generate_seektable and "
+        "BlockList::read fails likewise: the error is reported or the output is complete. Both build profiles.",
+        "Faults are injected at the std::io call boundary of the object handed to the crate; metadata::update on a real path is not fault-injected.",
+        "DESIGN.md section 4 C13",
+    ),
 }
 
 NOT_YET = {}
